@@ -92,6 +92,41 @@ func (e *Exec) specErr(env *SpecEnv, x ast.Node, format string, a ...interface{}
 	return SVal{T: "true", Typ: types.Typ[types.Bool]}
 }
 
+// applyGhost evaluates a user ghost function (an expression function of a contract file) on argument
+// expressions of the current environment; the body is evaluated in the ghost function's own package.
+func (e *Exec) applyGhost(env *SpecEnv, n ast.Node, g *ghostFn, args []ast.Expr) SVal {
+	if env.depth > 20 {
+		return e.specErr(env, n, "ghost function recursion too deep")
+	}
+	nb := map[string]Val{}
+	for k, v := range env.bound {
+		nb[k] = v
+	}
+	for i, p := range g.Params {
+		if i < len(args) {
+			a := e.sx(env, args[i])
+			at := a.Typ
+			if a.IsNil {
+				// type from the ghost function's signature
+				if obj, ok := g.Pkg.Info.Defs[g.Decl.Name].(*types.Func); ok {
+					at = obj.Type().(*types.Signature).Params().At(i).Type()
+				}
+				nb[p] = Val{T: e.sc.zeroOf(at), Typ: at}
+				continue
+			}
+			nb[p] = Val{T: e.mat(env, a), Typ: at}
+		}
+	}
+	savedB, savedP := env.bound, env.pkg
+	env.bound, env.pkg = nb, g.Pkg
+	env.depth++
+	r := e.sx(env, g.Expr)
+	r = SVal{T: e.mat(env, r), Typ: r.Typ}
+	env.depth--
+	env.bound, env.pkg = savedB, savedP
+	return r
+}
+
 func (e *Exec) constSVal(v constant.Value, t types.Type) SVal {
 	switch v.Kind() {
 	case constant.Bool:
@@ -1076,6 +1111,30 @@ func (e *Exec) sxCall(env *SpecEnv, n *ast.CallExpr) SVal {
 			v = e.fieldStep(env, v, i)
 		}
 		return v
+	case "ghostcall":
+		// ghostcall("pkg.fn", args...): a boolean ghost function of ANOTHER package of the repository
+		// (its contract file's unexported names cannot be mentioned in Go-typed contract text)
+		lit, ok := n.Args[0].(*ast.BasicLit)
+		if !ok {
+			return e.specErr(env, n, "ghostcall needs a literal \"pkg.fn\"")
+		}
+		want := strings.Trim(lit.Value, "\"")
+		dot := strings.LastIndex(want, ".")
+		if dot < 0 {
+			return e.specErr(env, n, "ghostcall needs \"pkg.fn\"")
+		}
+		var g *ghostFn
+		for _, p := range e.w.Order {
+			if p.PP.Name == want[:dot] || p.Path == want[:dot] {
+				if gg, ok := p.ghostDecl[want[dot+1:]]; ok && gg.Expr != nil {
+					g = gg
+				}
+			}
+		}
+		if g == nil {
+			return e.specErr(env, n, "ghostcall: no ghost function %s", want)
+		}
+		return e.applyGhost(env, n, g, n.Args[1:])
 	case "deref":
 		p := e.sx(env, n.Args[0])
 		pt := types.Unalias(p.Typ).Underlying().(*types.Pointer)
@@ -1091,36 +1150,7 @@ func (e *Exec) sxCall(env *SpecEnv, n *ast.CallExpr) SVal {
 	// user ghost function
 	if name != "" {
 		if g, ok := env.pkg.ghostDecl[name]; ok && g.Expr != nil {
-			if env.depth > 20 {
-				return e.specErr(env, n, "ghost function recursion too deep")
-			}
-			nb := map[string]Val{}
-			for k, v := range env.bound {
-				nb[k] = v
-			}
-			for i, p := range g.Params {
-				if i < len(n.Args) {
-					a := e.sx(env, n.Args[i])
-					at := a.Typ
-					if a.IsNil {
-						// type from the ghost function's signature
-						if obj, ok := g.Pkg.Info.Defs[g.Decl.Name].(*types.Func); ok {
-							at = obj.Type().(*types.Signature).Params().At(i).Type()
-						}
-						nb[p] = Val{T: e.sc.zeroOf(at), Typ: at}
-						continue
-					}
-					nb[p] = Val{T: e.mat(env, a), Typ: at}
-				}
-			}
-			savedB, savedP := env.bound, env.pkg
-			env.bound, env.pkg = nb, g.Pkg
-			env.depth++
-			r := e.sx(env, g.Expr)
-			r = SVal{T: e.mat(env, r), Typ: r.Typ}
-			env.depth--
-			env.bound, env.pkg = savedB, savedP
-			return r
+			return e.applyGhost(env, n, g, n.Args)
 		}
 	}
 	return e.specErr(env, n, "unsupported call in contract: %s", types.ExprString(n.Fun))
